@@ -113,6 +113,8 @@ def post(ctx, c, rep):
 
 def run(ctx):
     c01.run(ctx, focus='C04', post=post, n_quick=200, n_thorough=5000, force={'duppvd': True})
+    # allocation must stay sound for edits made to a reopened image (parsed continuation areas, parsed extents)
+    c01.run(ctx, focus='C04', post=post, n_quick=120, n_thorough=3000, reopen_every=5)
 
 
 def replay(ctx, obj):
